@@ -30,12 +30,21 @@ PRE_REPAIR_TABLE = False      # negative control only: the receiver table before
 
 # ====================================================================== the case tables (abstract steps)
 
-def tx_step(buf, d, t, n, esc):
-    """one sercomm_drv_pull() with a message in transmission -> (octet, finished, buf', n', esc')"""
+def wire_safe(x):
+    """an octet that may travel between the flags: not a flag, not zero"""
+    return z3.And(x != W.FLAG, x != 0)
+
+
+def tx_step(buf, d, t, n, esc, extra=False):
+    """one sercomm_drv_pull() with a message in transmission -> (octet, finished, buf', n', esc').
+    A RELATION: 7E, 7D and 00 MUST be escaped; any other octet MAY be escaped (`extra`: the implementation's choice for the current octet;
+    e.g. XON/XOFF for an adapter with software flow control) as long as its inverted form can travel (is neither 7E nor 00) - the receiver
+    un-escapes whatever follows 7D, so it need not know the set."""
     cur = z3.Select(buf, n)
     c_esc = esc
     c_end = z3.And(z3.Not(esc), n >= t)
-    c_mark = z3.And(z3.Not(esc), n < t, W.needs_escape(cur))
+    may = z3.And(extra, wire_safe(W.xor20(cur))) if not isinstance(extra, bool) else z3.BoolVal(False)
+    c_mark = z3.And(z3.Not(esc), n < t, z3.Or(W.needs_escape(cur), may))
     ch = z3.If(c_esc, cur, z3.If(c_end, W.FLAG, z3.If(c_mark, W.ESCAPE, cur)))
     buf1 = z3.If(c_mark, z3.Store(buf, n, W.xor20(cur)), buf)
     n1 = z3.If(z3.Or(c_end, c_mark), n, n + 1)
@@ -244,9 +253,13 @@ class DrvPull(Contract):
        idle, all queues empty             returns 0, nothing changes
        idle, i = lowest non-empty queue   dequeues its head, *ch = 7E, transmission of it starts at its first octet, returns 1
        busy                               *ch and the new transmitter state are tx_step(...) (escape pending -> the (already inverted)
-                                          octet; end -> 7E, message freed, idle; octet in {7E,7D,00} -> 7D, octet ^= 20, escape pending;
-                                          otherwise the octet), returns 1
-       representation invariant (pre and post): idle => state != ESCAPE; busy => data <= next <= tail, escape pending => next < tail."""
+                                          octet; end -> 7E, message freed, idle; octet in {7E,7D,00} -> MUST be escaped: 7D, octet ^= 20,
+                                          escape pending; any other octet MAY be escaped the same way if its inverted form is neither 7E
+                                          nor 00, else it is sent as it is), returns 1
+       representation invariant (pre and post): idle => state != ESCAPE; busy => data <= next <= tail, escape pending => next < tail and the
+       pending octet is neither 7E nor 00.
+       [loosened: the first version fixed the escape set to exactly {7E,7D,00}; the statement only demands that no flag / zero octet travels
+        unescaped and that delivery is intact - the receiver un-escapes whatever follows 7D]"""
     name = "sercomm_drv_pull"
     roles = {"i": ("ivar", None)}          # the queue index of the dequeue loop, whatever it is called
     externals = EXTERNALS
@@ -282,7 +295,7 @@ class DrvPull(Contract):
             return [("idle_not_in_escape", st != ST_ESC)]
         cur = z3.Select(c.view_pre.cell(Ptr(c.b, (("i", V(0)),), c.b.elem)), c.n)
         return [("escape_pending_means_octet_left", z3.Implies(st == ST_ESC, c.n < c.t)),
-                ("escape_pending_means_octet_already_inverted", z3.Implies(st == ST_ESC, W.needs_escape(W.xor20(cur))))]
+                ("escape_pending_means_pending_octet_can_travel", z3.Implies(st == ST_ESC, wire_safe(cur)))]
 
     def assigns(self, c):
         r = [c.region(c.a.ch), c.region(c.g, "tx.msg"), c.region(c.g, "tx.next_char"), c.region(c.g, "tx.state")]
@@ -324,14 +337,16 @@ class DrvPull(Contract):
                     ("state_unchanged", tn.state == old.get(g, "tx.state")),
                     ("invariant_next_within_message", z3.And(d <= tn.n, tn.n <= t) if (tn.known and not tn.idle and tn.n is not None) else z3.BoolVal(False))]
         to = TxView(old, g)
-        e_ch, e_end, e_buf, e_n, e_esc = tx_step(to.buf, to.d, to.t, to.n, to.esc)
+        # the implementation's free choice for this octet, read off the step it took: it marked the octet for escaping
+        chose = z3.BoolVal(False) if tn.idle else z3.And(z3.Not(to.esc), tn.state == ST_ESC)
+        e_ch, e_end, e_buf, e_n, e_esc = tx_step(to.buf, to.d, to.t, to.n, to.esc, extra=chose)
         freed = new.ghost("freed", [])
         posts = [("returns_1", ret == 1), ("octet", ch == e_ch),
                  # stage 2, on the code itself: what goes on the wire between the opening and the closing flag
                  ("no_zero_between_flags", ch != 0),
                  ("flag_only_as_closing_flag", (ch == W.FLAG) == z3.BoolVal(tn.idle)),
-                 ("escape_octet_only_as_marker", z3.Implies(ch == W.ESCAPE, z3.And(z3.BoolVal(not tn.idle), tn.state == ST_ESC))),
-                 ("after_marker_no_flag_escape_or_zero", z3.Implies(to.esc, z3.Not(W.needs_escape(ch))))]
+                 ("escape_octet_only_as_marker", z3.Implies(z3.And(z3.Not(to.esc), ch == W.ESCAPE), z3.And(z3.BoolVal(not tn.idle), tn.state == ST_ESC))),
+                 ("after_marker_no_flag_or_zero", z3.Implies(to.esc, wire_safe(ch)))]
         if tn.idle:
             posts += [("idle_only_at_end", e_end), ("message_freed", z3.BoolVal(c.mp.block.name in freed)), ("state_not_escape", tn.state != ST_ESC),
                       ("next_char_cleared", z3.BoolVal(new.get(g, "tx.next_char") is not None and new.get(g, "tx.next_char").block is None))]
@@ -342,7 +357,7 @@ class DrvPull(Contract):
                 posts += [("buffer", tn.buf == e_buf), ("next", tn.n == e_n), ("escape_flag", (tn.state == ST_ESC) == e_esc),
                           ("message_bounds_unchanged", z3.And(tn.d == to.d, tn.t == to.t)),
                           ("invariant_next_within_message", z3.And(tn.d <= tn.n, tn.n <= tn.t, z3.Implies(tn.state == ST_ESC, tn.n < tn.t))),
-                          ("invariant_pending_octet_inverted", z3.Implies(tn.state == ST_ESC, W.needs_escape(W.xor20(z3.Select(tn.buf, tn.n))))),
+                          ("invariant_pending_octet_can_travel", z3.Implies(tn.state == ST_ESC, wire_safe(z3.Select(tn.buf, tn.n)))),
                           ("not_freed", z3.BoolVal(c.mp.block.name not in freed))]
         return posts
 
@@ -557,9 +572,9 @@ class Rx:
         return z3.And(0 <= self.dlci, self.dlci <= 255, 0 <= self.ctrl, self.ctrl <= 255)
 
 
-def pull_busy(tx):
-    """-> (octet, tx')"""
-    ch, end, buf1, n1, esc1 = tx_step(tx.buf, tx.d, tx.t, tx.n, tx.esc)
+def pull_busy(tx, tag="tx"):
+    """-> (octet, tx'); the implementation's choice to escape an octet that need not be escaped is a free Boolean constant"""
+    ch, end, buf1, n1, esc1 = tx_step(tx.buf, tx.d, tx.t, tx.n, tx.esc, extra=z3.Bool(tag + ".escapes_this_octet_too"))
     return ch, tx.but(idle=end, buf=buf1, n=n1, esc=esc1)
 
 
@@ -617,7 +632,7 @@ def txi(tx, O, js):
     at the instances js"""
     e = z3.If(tx.esc, 1, 0)
     cl = [z3.Not(tx.idle), 0 <= tx.d, tx.d <= tx.n, tx.n <= tx.t,
-          z3.Implies(tx.esc, z3.And(tx.n < tx.t, W.needs_escape(z3.Select(O, tx.n)), z3.Select(tx.buf, tx.n) == W.xor20(z3.Select(O, tx.n))))]
+          z3.Implies(tx.esc, z3.And(tx.n < tx.t, wire_safe(W.xor20(z3.Select(O, tx.n))), z3.Select(tx.buf, tx.n) == W.xor20(z3.Select(O, tx.n))))]
     for j in js:
         cl.append(z3.Implies(z3.And(tx.n + e <= j, j < tx.t), z3.Select(tx.buf, j) == z3.Select(O, j)))
     return cl
